@@ -23,10 +23,12 @@ vars == <<kind, a, b, c, h, ph>>
 \* named constant sets for the cfg files
 DAll == Scalars                       EAll == 1..(N + 2)
 DFew == {1, 2, (N - 1) \div 2, (N + 1) \div 2, N - 1}
+DThree == {1, (N - 1) \div 2, N - 1}
 EFew == {1, 2, N - 1, N, N + 1}       ETwo == {3, N + 1}       EOne == {N + 3}
 HAll == {0, 26} \cup 27..35 \cup {255}
 HFew == {26, 27, 28, 29, 30, 33, 34, 35}
 HSix == {26, 27, 29, 30, 34, 35}
+RBound == 0..8 \cup (N - 2)..(N + 1) \cup (P - N - 1)..(P - N + 1) \cup {P - 1, P}
 RAll == 0..(P + 1)                    RFew == 0..(N + 1) \cup {P - N - 1, P - N, P - 1, P}
 SAll == 0..(N + 1)                    SFew == {0, 1, 2, (N - 1) \div 2, N - 2, N - 1, N, N + 1}
 SFive == {0, 1, (N - 1) \div 2, N - 1, N}
